@@ -21,7 +21,7 @@ TIME_CAP = {"quick": 70, "thorough": 1500}
 ANCHORS = ["Point.__imul__", "Point.__mul__", "Matrix.point_in_matrix_space", "Move.__imul__", "Linear.__imul__", "QuadraticBezier.__imul__",
            "CubicBezier.__imul__", "Arc.__imul__", "Path.reify", "Transformable.__mul__", "Transformable.__imul__", "Transformable.__abs__",
            "Rect.segments", "_RoundShape.segments", "SimpleLine.segments", "_Polyshape.segments", "Subpath.__imul__", "PathSegment.__mul__"]
-REQUIRED_MONITORS = ["segment-times-matrix", "segment-imul", "composition", "path-times-matrix", "shape-times-matrix", "subpath-imul", "segment-imul-hook"]
+REQUIRED_MONITORS = ["segment-times-matrix", "segment-imul", "composition", "path-times-matrix", "shape-times-matrix", "subpath-imul", "segment-imul-hook", "path-internal-alias"]
 
 T17 = [i / 16.0 for i in range(17)]
 T5 = [0.0, 0.25, 0.5, 0.75, 1.0]
@@ -55,6 +55,9 @@ def gen_case(R, index, tier):
         case.update({"stratum": "segment/%s" % kind, "seg": spec, "segclass": st})
     elif k < 0.72:
         case.update({"stratum": "path", "path": GG.path(R, maxseg=4), "linked_by_append": R.random() < 0.35})
+        if not case["linked_by_append"] and R.random() < 0.5:
+            case["joined"] = R.choice(["iadd", "add", "extend", "insert-delete"])
+            case["join_at"] = R.randint(0, 20)
     elif k < 0.78:
         case.update({"stratum": "subpath", "path": GG.path(R, nsub=R.randint(2, 3), maxseg=3), "which": R.randint(0, 2)})
     else:
@@ -219,6 +222,36 @@ def _run_path(S, case, ctx, M, B):
             if i > 0 and not isinstance(s_, S.Arc):
                 s_.start = None
             path.append(s_)
+    how = case.get("joined")
+    if how and len(path) >= 3:
+        # the same path assembled by joining two pieces (the library re-validates closes across the seam)
+        segs = [copy(s_) for s_ in path]
+        k = 1 + (case.get("join_at", 1) % (len(segs) - 1))
+        first, second = S.Path(*segs[:k]), S.Path(*[copy(s_) for s_ in segs[k:]])
+        try:
+            if how == "iadd":
+                first += second
+                path = first
+            elif how == "add":
+                path = first + second
+            elif how == "extend":
+                first.extend(list(second))
+                path = first
+            else:
+                whole = S.Path(*segs)
+                extra = S.Line(segs[k - 1].end, segs[k - 1].end)
+                whole.insert(k, extra)
+                del whole[k]
+                path = whole
+        except Exception as e:
+            ctx.violation("path-join/raises/%s" % type(e).__name__, "joining %s + %s by %s: %r" % (first.d(), second.d(), how, e), monitor="path-times-matrix")
+            return
+        from ..monitors import check_no_internal_alias
+        msg = check_no_internal_alias(S, path)
+        ctx.mon("path-internal-alias")
+        if msg:
+            ctx.violation("path-internal-alias/%s" % how, "after joining by %s: %s; path %s" % (how, msg, path.d()), monitor="path-internal-alias")
+            return
     mc = case["mclass"]
     LM = S.Matrix(*M)
     olds = [_pts(seg, S, T5) for seg in path]
